@@ -4,10 +4,18 @@ import ColaVerif.Gen.StructuralRules
 /-!
 # C19: the hand-written rule skeleton against the generated classification
 
-`skeletonAgrees`: for every function `f` of the skeleton, every dispatched function it stands for
-and every structured kind `k`: the table entry `act f k` is not `self` exactly when the live
-dispatcher, followed through forwarding rules, selects a structural rule for a call on `k` with
-the algorithm argument omitted (`Structural.kindOK` on the generated lattice).
+Round 1 compared ONE boolean per (function, kind) (`agreesOn`, kept below).  Round 2 compares the full
+per-rule structure FIELD BY FIELD:
+
+* `kindRuleAgrees n k` — the rules of the live table of `n` whose annotation at the operator position
+  names the structured kind `k` (and structured kinds only): there is one iff the hand-written
+  `Op.kindRule n k` is `some h`, and then every such rule is not classified generic, touches exactly
+  `h.touch` of the operator, and calls exactly the dispatched functions `h.calls` with exactly these
+  argument sources (the operator as a whole / a member / `I_like(A)` / the k-th parameter / an
+  expression of the class with this NAME, looked up in the generated class table);
+* `baseRuleAgrees n` — the same for the `LinearOperator` rules of the functions with `Op.baseRule`;
+* `skeletonDerived` — `Op.act f k` is what `Op.actOf` derives from these two tables, and every function a
+  rule hands the whole operator to is structural on the kind.
 -/
 
 namespace ColaVerif.SkeletonTie
@@ -21,5 +29,91 @@ def agreesOn (f : Op.Fn) (n : String) (kc : Op.Kind × String) : Bool :=
 
 def skeletonAgrees : Bool :=
   Op.Fn.all.all fun f => f.pyNames.all fun n => Op.Kind.structured.all fun kc => agreesOn f n kc
+
+/-! ## field by field -/
+
+def altAgrees : Op.HAlt → Alt → Bool
+  | .param k, .param k' _ => k == k'
+  | .cls n, .const c => classNames[c]? == some n
+  | _, _ => false
+
+def altsAgree : List Op.HAlt → List Alt → Bool
+  | [], [] => true
+  | h :: hs, a :: as => altAgrees h a && altsAgree hs as
+  | _, _ => false
+
+def argAgrees : Op.HArg → ArgSrc → Bool
+  | .whole, .whole => true
+  | .member, .member => true
+  | .ilike, .ilike => true
+  | .alts hs, .alts as => altsAgree hs as
+  | _, _ => false
+
+def argsAgree : List Op.HArg → List ArgSrc → Bool
+  | [], [] => true
+  | h :: hs, a :: as => argAgrees h a && argsAgree hs as
+  | _, _ => false
+
+def callsAgree : List (String × List Op.HArg) → List (String × List ArgSrc) → Bool
+  | [], [] => true
+  | h :: hs, c :: cs => h.1 == c.1 && argsAgree h.2 c.2 && callsAgree hs cs
+  | _, _ => false
+
+def shapeAgrees (h : Op.HShape) (r : RuleShape) : Bool :=
+  r.cls != 2 && h.touch == r.touch && callsAgree h.calls r.calls
+
+def enumSigs (t : List Sig) : List (Nat × Sig) := (List.range t.length).zip t
+
+/-- indices of the rules of `e` written for the kind with class id `kid` -/
+def kindRulesOf (e : Entry) (kid : Nat) : List Nat :=
+  ((enumSigs e.table).filter fun p =>
+    isKindRule structuredIds e.opPos p.2 &&
+      (match p.2.tys[e.opPos]? with | some h => h.contains kid | none => false)).map (·.1)
+
+def classId (n : String) : Option Nat := classNames.findIdx? (· == n)
+
+/-- indices of the rules of `e` whose operator annotation is exactly `LinearOperator` -/
+def baseRulesOf (e : Entry) : List Nat :=
+  match classId "cola.ops.operator_base.LinearOperator" with
+  | none => []
+  | some lo =>
+    ((enumSigs e.table).filter fun p =>
+      (match p.2.tys[e.opPos]? with | some h => h == [lo] | none => false)).map (·.1)
+
+def shapeAt (n : String) (i : Nat) : Option RuleShape :=
+  match familyShapes.find? (·.1 == n) with
+  | some p => p.2.find? (·.sig == i)
+  | none => none
+
+def kindRuleAgrees (n : String) (kc : Op.Kind × String) : Bool :=
+  match kindIds.find? (·.1 == kc.2), lookup family n with
+  | some kid, some e =>
+      let rs := kindRulesOf e kid.2
+      (match Op.kindRule n kc.1 with
+       | none => rs.isEmpty
+       | some h => !rs.isEmpty && rs.all fun i =>
+           match shapeAt n i with | some r => shapeAgrees h r | none => false)
+  | _, _ => false
+
+def baseRuleAgrees (n : String) : Bool :=
+  match lookup family n with
+  | some e =>
+      (match Op.baseRule n with
+       | none => true
+       | some h => !(baseRulesOf e).isEmpty && (baseRulesOf e).all fun i =>
+           match shapeAt n i with | some r => shapeAgrees h r | none => false)
+  | none => false
+
+/-- every dispatched function of the family, every structured kind: the rule structures coincide -/
+def shapesAgree : Bool :=
+  (family.map (·.name)).all fun n =>
+    baseRuleAgrees n && Op.Kind.structured.all fun kc => kindRuleAgrees n kc
+
+/-- `Op.act` is the table DERIVED from `kindRule` / `baseRule`; where it is not `self`, every function a
+    rule hands the whole operator to (on any branch: `pow → inv` as well as `pow → apply_unary`) is
+    structural on the kind -/
+def skeletonDerived : Bool :=
+  Op.Fn.all.all fun f => f.pyNames.all fun n => Op.Kind.structured.all fun kc =>
+    Op.act f kc.1 == Op.actOf 6 n kc.1 && (Op.act f kc.1 == Op.Act.self || Op.forwardsStructural 6 n kc.1)
 
 end ColaVerif.SkeletonTie
